@@ -77,6 +77,7 @@ C("mako.runtime:Context._locals",
            ("updated", "implies(dict_nonempty(d), fresh(result) and result._data == dict_update(old(self._data), d))"),
            ("shares-stacks", "same(result._buffer_stack, self._buffer_stack) and same(result.caller_stack, self.caller_stack)"),
            ("kwargs-shared", "same(result._kwargs, self._kwargs)"),
+           ("same-render", "same(result._with_template, self._with_template) and same(result._outputting_as_unicode, self._outputting_as_unicode)"),
            ("self-data-untouched", "self._data == old(self._data)"),
            ("self-kwargs-untouched", "self._kwargs == old(self._kwargs)")],
   props=["C04"])
